@@ -4,7 +4,8 @@ from .compat import PY2
 from .scope import (FuncScope, Flow, SourceScope, ClassScope,
                     IMPORT_END_DELIMETERS, get_first_body_node_loc)
 from .name import AssignedName, ImportedName
-from .util import (np, get_expr_end, get_indexes_for_target, visitor, get_any_marked_name)
+from .util import (np, get_expr_end, get_indexes_for_target, visitor, get_any_marked_name,
+                   get_name_usages)
 
 if PY2:
     UNSUPPORTED_ASSIGMENTS = Subscript
@@ -89,18 +90,23 @@ class extract_visitor(NodeVisitor):
         # the value is evaluated before the targets are bound: a comprehension
         # in it forks the flow and must not see them
         self.visit(node.value)
+        pending = False
         for targets in node.targets:
             for name, _ in get_indexes_for_target(targets, [], []):
-                if isinstance(name, Attribute):
-                    self.top.add_attr_assign(self.flow.scope, name, node.value)
-                elif isinstance(name, UNSUPPORTED_ASSIGMENTS):
-                    continue
+                if isinstance(name, (Attribute,) + UNSUPPORTED_ASSIGMENTS):
+                    if pending and get_name_usages(name):
+                        # ``i, a[i] = ...``: the targets are assigned from left to right, the
+                        # subscript sees the names bound before it by this statement
+                        self.flow = self.make_flow('assign-targets', [self.flow])
+                        self.flow.scope.flow = self.flow
+                        pending = False
+                    if isinstance(name, Attribute):
+                        self.top.add_attr_assign(self.flow.scope, name, node.value)
+                    self.visit(name)
                 else:
                     name.flow = self.flow  # type: ignore[attr-defined]
                     self.flow.add_name(AssignedName(name.id, eend, np(name), node.value))
-
-        for targets in node.targets:
-            self.visit(targets)
+                    pending = True
 
     def visit_AnnAssign(self, node):
         # type: (ast.AnnAssign) -> None
